@@ -632,12 +632,29 @@ pub fn tx_monitors(h: &Hist, ms: &mut MonState, b: &Obs, line: &str, res: &str, 
         let amounts = |r: &str| -> Vec<u128> { r.split(',').map(|c| c.chars().take_while(|ch| ch.is_ascii_digit()).collect::<String>().parse::<u128>().unwrap_or(0)).collect() };
         if ids.len() == res.len() {
             let mut last: std::collections::BTreeMap<String, Vec<u128>> = std::collections::BTreeMap::new();
-            for (id, r) in ids.iter().zip(res.iter()) {
+            let swaps: Vec<&String> = h.last_attrs.iter().filter(|(k, _)| k == "swap").map(|(_, v)| v).collect();
+            for (hop_no, (id, r)) in ids.iter().zip(res.iter()).enumerate() {
                 let now = amounts(r);
                 let prev = match last.get(*id) { Some(v) => Some(v.clone()), None => pool(b, id).map(|p| p.assets.iter().map(|c| c.amount.u128()).collect()) };
                 if let (Some(prev), Some(pb)) = (prev, pool(b, id)) {
                     if matches!(pb.pool_type, PoolType::ConstantProduct) && prev.len() == 2 && now.len() == 2 {
                         out.push(format!("mon_hop_k {} {} {} {}", prev[0], prev[1], now[0], now[1]));
+                        // C13, hop by hop: EVERY hop of an executed route stays within the tolerance the route carried (1 % when
+                        // omitted) — measured, like a direct swap, against the reserves its pool reported just before the hop.
+                        // The hop's `swap` attribute gives what went in and what came out.
+                        if let Some(sw) = swaps.get(hop_no) {
+                            let part = |key: &str| -> Option<(u128, String)> {
+                                let v = sw.split(", ").find_map(|kv| kv.strip_prefix(key))?;
+                                let digits: String = v.chars().take_while(|ch| ch.is_ascii_digit()).collect();
+                                Some((digits.parse().ok()?, v[digits.len()..].to_string()))
+                            };
+                            if let (Some((inn, ind)), Some((outa, _))) = (part("in="), part("out=")) {
+                                let xi = if pb.assets[0].denom == ind { Some(0) } else if pb.assets[1].denom == ind { Some(1) } else { None };
+                                let n: usize = tx.args[0].parse().unwrap_or(0);
+                                let tol = tx.args.get(3 + 3 * n).cloned().unwrap_or("-".into());
+                                if let Some(xi) = xi { out.push(format!("mon_cp_slippage {} {} {} {} {} 0", tol, prev[xi], prev[1 - xi], inn, outa)); }
+                            }
+                        }
                     }
                 }
                 last.insert((*id).clone(), now);
